@@ -170,6 +170,9 @@ def huge_integer_rewards(ctx):
 def run(ctx, model=None):
     ctx.extra["rule"] = RULE
     huge_integer_rewards(ctx)
+    import analysis as _an0
+    _r0 = random.Random(ctx.seed + 61)
+    _an0.optimized_interpreter(ctx, [gen.stopping_game(_r0, dead_frac=0.6) for _ in range(10)], "complete-result")
     rng = random.Random(ctx.seed * 3010349 + 6)
     specials = tiny_direct_games()
     for g in specials:
